@@ -542,6 +542,16 @@ pub fn check_hist(r: &mut Recorder, c: &Value) {
             bad.push("language-is_empty");
         }
         if !bad.is_empty() {
+            // maximize / minimize: the properties also allow the answer of an implementation that uses the optional
+            // UTS #35 fallbacks.  It leaves the path this history was computed along: stop comparing, keep the value checks.
+            if let Some(alt) = st.get("alt") {
+                if !alt.is_null() && res == alt["res"] && after == alt["st"] && b(&ser) == alt["ser"] && !bad.contains(&"language-is_empty") {
+                    r.stat("hist_allowed_alternative");
+                    let desc = format!("history of {} ops from '{}' (allowed alternative taken)", trail.len(), show(&start));
+                    check_loc_value(r, desc.as_bytes(), &loc, "hist");
+                    return;
+                }
+            }
             let mut props = vec!["C10"];
             if bad.contains(&"text") {
                 props.push("C04");
